@@ -286,7 +286,7 @@ FIXED = [
     "^[-a]$", "^[a-]$", "^[\\-a]$", "^[\\^a]$", "^[\\]a]$", "^[\\[a]$", "^[\\\\a]$",
     "^[^\\x00-\\x1f]$", "^[\\x20-\\x7e]*$", "^[\\u0100-\\uffff]$", "^[\\U00010000-\\U0010ffff]$",
     "^\\U00010000$", "^\\U0010ffff+$", "^(\\U00010000|something)$", "^[^\\ud800-\\udfff]$",
-    "^a$b$", "^(a$|b)$", "^(a|b$)c*$", "^a$$", "^a(b|c)d(e|f)*$", "^(a|ab)(c|bcd)(d*)$",
+    "^a$b$", "^(a$|b)$", "^a($|b)*c$", "^(a|b$)c*$", "^a$$", "^a(b|c)d(e|f)*$", "^(a|ab)(c|bcd)(d*)$",
     "^x(a|b|c|d|e|f|g|h)y$", "^((a)|(b))+$", "^(a|(b|(c|d)))$", "^a.b$", "^a.+b$", "^[a-zA-Z0-9_]+@[a-z]+\\.[a-z]{2,3}$",
     "^-?(0|[1-9][0-9]*)(\\.[0-9]+)?([eE][+-]?[0-9]+)?$",
     "^[\\t\\n\\r -\\ud7ff\\ue000-\\ufffd\\U00010000-\\U0010ffff]*$",
@@ -299,6 +299,12 @@ PROBES = [
     "^a+?$", "^a*?b$", "^(a|b)??$", "^a{1,2}?$",        # non-greedy quantifiers
     "^(|a)$", "^(a|)$", "^()$", "^(a||b)$", "^a()b$",   # empty branches / groups
     "^[a-\\U00010000]$", "^[^\\U00010000]$",             # UTF-16 rewriting (C17)
+]
+
+
+# Patterns whose emitted pattern.cpp is compiled on its own (syntax only).
+COMPILE_PROBES = [
+    "^(a*/ )$",   # comment text ends with a blank and contains the end of a block comment
 ]
 
 
